@@ -4,11 +4,11 @@ import Rivaas.Spec.Reverse
 /-
 Driver for C12. Case lines:
 
-  <id> P <nActors> { Q <target> <valInt> | F | W | R <r> <routeKind> | H <r> | N <r> | U <r> | B <r> }*
+  <id> P <nActors> { Q <target> <valInt> | G <target> <valInt> | F | W | R <r> <routeKind> | H <r> | N <r> | U <r> | B <r> }*
          <nSched> <actor>*  <nIds> <id>*
     => <nEv> { <vis> <out> }*  <nFinal> <vis>*  <nProbes> { {0|1 <id>} {0|1 <id>} }*
 
-  vis: N E FF WD WR WC FD SF RC B D        out: - | M a|r|n | H {0 | 1 <id>} | U o|f|n | X
+  vis: N E FF WD WR WC FD SF RC B D        out: - | G | M a|r|n | H {0 | 1 <id>} | U o|f|n | X
   (routeKind — direct / group / mount / version — is not a model input: all four go through the same checks)
 -/
 namespace Rivaas.DriverC12
@@ -17,6 +17,7 @@ open Rivaas Rivaas.Proto Rivaas.Phases
 def pKind : P Kind := do
   let k ← tok
   if k == "Q" then (do let t ← nat; let v ← bool; pure (Kind.request t v))
+  else if k == "G" then (do let t ← nat; let v ← bool; pure (Kind.request t v true))
   else if k == "F" then pure Kind.freeze
   else if k == "W" then pure Kind.warmup
   else if k == "R" then (do let r ← nat; let _ ← nat; pure (Kind.register r))
@@ -39,6 +40,7 @@ def pOut : P Out := do
   let k ← tok
   if k == "-" then pure .none
   else if k == "X" then pure .crash
+  else if k == "G" then pure .gone
   else if k == "M" then do
     let r ← tok
     if r == "a" then pure (.mut .accepted) else if r == "r" then pure (.mut .rejected)
@@ -81,6 +83,7 @@ def encOptNat : Option Nat → String
 def encOut : Out → String
   | .none => "-"
   | .crash => "X"
+  | .gone => "G"
   | .mut .accepted => "M a" | .mut .rejected => "M r" | .mut .na => "M n"
   | .hit h => "H " ++ encOptNat h
   | .url .ok => "U o" | .url .notFrozen => "U f" | .url .notFound => "U n"
